@@ -2428,7 +2428,7 @@ int32 matrixValidateCerts(psPool_t *pool, psX509Cert_t *subjectCerts,
     Subject certs is the leaf first chain of certs from the peer
     Issuer certs is a flat list of trusted CAs loaded by LoadKeys
  */
-int32 matrixValidateCertsExt(psPool_t *pool, psX509Cert_t *subjectCerts,
+static int32 validateCertsExtInt(psPool_t *pool, psX509Cert_t *subjectCerts,
     psX509Cert_t *issuerCerts, char *expectedName,
     psX509Cert_t **foundIssuer, void *hwCtx,
     void *poolUserPtr,
@@ -2482,12 +2482,11 @@ int32 matrixValidateCertsExt(psPool_t *pool, psX509Cert_t *subjectCerts,
                 psTraceCrypto("Could not parse certificate date\n");
                 return PS_PARSE_FAIL;
             }
-            if (sc->authFailFlags & PS_CERT_AUTH_FAIL_DATE_FLAG)
-            {
-                psTraceCrypto("Certificate date validation failed\n");
-                sc->authStatus = PS_CERT_AUTH_FAIL_EXTENSION;
-                return PS_CERT_AUTH_FAIL_EXTENSION;
-            }
+            /* A date failure is now recorded in authFailFlags.  Do not
+               return yet: psX509AuthenticateCert turns the flag into
+               authStatus with the lowest priority, so the chain is still
+               validated and a harder failure is not hidden behind "expired"
+               (matrixValidateCertsExt supplies the return code) */
             sc = sc->next;
         }
     }
@@ -2734,6 +2733,33 @@ int32 matrixValidateCertsExt(psPool_t *pool, psX509Cert_t *subjectCerts,
     Success would have returned if it happen
  */
     return PS_CERT_AUTH_FAIL;
+}
+
+int32 matrixValidateCertsExt(psPool_t *pool, psX509Cert_t *subjectCerts,
+    psX509Cert_t *issuerCerts, char *expectedName,
+    psX509Cert_t **foundIssuer, void *hwCtx,
+    void *poolUserPtr,
+    const matrixValidateCertsOptions_t *opts)
+{
+    psX509Cert_t *sc;
+    int32 rc;
+
+    rc = validateCertsExtInt(pool, subjectCerts, issuerCerts, expectedName,
+            foundIssuer, hwCtx, poolUserPtr, opts);
+    if (rc >= 0 && (opts->flags & VCERTS_FLAG_REVALIDATE_DATES))
+    {
+        /* The chain has no other defect: a re-validated date that is out of
+           range is an error of its own, as before */
+        for (sc = subjectCerts; sc != NULL; sc = sc->next)
+        {
+            if (sc->authFailFlags & PS_CERT_AUTH_FAIL_DATE_FLAG)
+            {
+                psTraceCrypto("Certificate date validation failed\n");
+                return PS_CERT_AUTH_FAIL_EXTENSION;
+            }
+        }
+    }
+    return rc;
 }
 
 /******************************************************************************/
